@@ -1401,9 +1401,66 @@ def c17_text_cases(tier, seed):
     return cases
 
 
+def paste_chunks(text):
+    """a bracketed paste, cut so that no write exceeds the pty's input queue"""
+    body = b"\x1b[200~" + text + b"\x1b[201~"
+    return [body[i:i + 3000] for i in range(0, len(body), 3000)]
+
+
+F19_WITNESS = ("vi", [b"a" * 66000], ["Esc", "R", "Esc", ".", "Enter"])
+F20_WITNESS = ("emacs", [b"x\n" + b"a" * 66000], ["Up", "Enter"])
+
+
+def c17_long_cases(tier, seed):
+    """lines around and beyond the u16 limits (RepeatCount, layout Unit = u16): the text arrives as one bracketed paste
+    (one command, one observation), then a short script that measures, repeats or re-inserts it. Implementation only:
+    the extracted model's unary arithmetic cannot follow 66000-byte lines in reasonable time."""
+    rng = random.Random(seed * 2111 + 3)
+    n = 60 if tier == "thorough" else 6
+    cases = []
+    def mk(mode, pastes, keys):
+        chunks = []
+        for t in pastes:
+            chunks += paste_chunks(t)
+        chunks += [p_tty.key_bytes(k) for k in keys]
+        return Case(["<paste %d bytes>" % sum(len(t) for t in pastes)] + list(keys), mode=mode, timeout=0 if mode == "vi" else "none",
+                    prompt="> ", reads=2, chunks=chunks, cols=rng.choice([80, 200]), meta={"long": 1})
+    cases.append(mk(*F19_WITNESS))
+    cases.append(mk(*F20_WITNESS))
+    VI = [["Esc", "R", "Esc", "."], ["Esc", "s", "Esc", "."], ["Esc", "0", "R", "x", "Esc", "."], ["Esc", "A", "Esc", "."],
+          ["Esc", "0", "d", "$", "u", "."], ["Esc", "0", "y", "$", "p", "."], ["Esc", "k", "j"], ["Esc", "x", "."],
+          ["Esc", "0", "c", "w", "Esc", "."], ["Esc", "9", "9", "9", "9", "9", "l"], ["Esc", "0", "D", "P", "P"], ["Esc", "~", "."],
+          ["Esc", "0", ">", ">", "."], ["Esc", "r", "b", "."], ["Esc", "I", "Esc", "."]]
+    EM = [["Up"], ["Down"], ["C-a", "C-k", "C-y", "C-y", "M-y"], ["M-u"], ["M-l", "C-_"], ["C-t"], ["M-t"], ["C-_"],
+          ["C-a", "M-9", "M-9", "M-9", "M-9", "M-9", "C-f"], ["C-u", "C-y", "Up", "Down"], ["C-a", "Up", "C-e", "Down"],
+          ["M-b", "M-d", "C-y"], ["C-a", "C-v", "C-j", "Up", "Down", "Up"], ["Home", "End", "C-l"]]
+    for _ in range(n):
+        mode = rng.choice(["vi", "emacs"])
+        size = rng.choice([65534, 65535, 65536, 65537, 66000, 70000, 131072 + 5])
+        unit = rng.choice([b"a", b"a", b"ab ", b"\xc3\xa9", b"\xe6\x97\xa5", b"x y"])
+        text = (unit * (size // len(unit) + 1))[:size]
+        while text and (text[-1] & 0xc0) == 0x80 or (text and text[-1] >= 0xc0):
+            text = text[:-1]
+        pastes = [text]
+        r = rng.random()
+        if r < 0.4:
+            pastes = [rng.choice([b"x\n", b"first line\n", b"\n"]) + text]
+        elif r < 0.6:
+            pastes = [text + rng.choice([b"\ny", b"\n"])]
+        keys = []
+        for _ in range(rng.randint(1, 3)):
+            keys += rng.choice(VI if mode == "vi" else EM)
+        if mode == "vi" and keys[-1] != "Esc" and rng.random() < 0.3:
+            keys += ["Esc"]
+        cases.append(mk(mode, pastes, keys + ["Enter"]))
+    return cases
+
+
 def c17_corr(res, exe, driver, tier, seed, tmp):
     cases = p_tty.c17_cases(tier, seed)
     out = run_tty_cases(res, exe, driver, cases, tmp, "junk", compare_output=False)
+    lcases = c17_long_cases(tier, seed)
+    out += run_tty_cases(res, exe, None, lcases, tmp, "long", compare_output=False)
     hcases = p_tty.c17_highlight_cases(tier, seed)
     out += run_tty_cases(res, exe, driver, hcases, tmp, "junk-highlight", compare_output=False, rng=random.Random(seed), typeahead=0.2)
     tcases = c17_text_cases(tier, seed)
@@ -1439,7 +1496,7 @@ def c17_corr(res, exe, driver, tier, seed, tmp):
                                         "why": "keys lost: typed %r in %d writes then Enter, the read returned %s" % (
                                             c.meta["text"], len(c.chunks), rl[:1])})
     res.distribution.update({"oracle": stats, "junk_scripts": len(cases), "highlight_scripts": len(hcases),
-                             "typeahead_scripts": len(tcases)})
+                             "typeahead_scripts": len(tcases), "long_scripts": len(lcases)})
     res.rule = ("junk: chunks of arbitrary bytes (ESC runs, truncated / over-long CSI and SS3 sequences, paste without terminator, "
                 "huge and negative numeric arguments, NUL and C0/C1 controls, invalid and over-long UTF-8, multi-byte text) alone or "
                 "spliced into valid emacs/vi scripts; both modes, 3-6 reads, helpers (completer, hinter, bracket validator, bracket "
@@ -1449,7 +1506,10 @@ def c17_corr(res, exe, driver, tier, seed, tmp):
                 "result for every read. States before every key are also compared with the extracted model (not for the cases with "
                 "signals, where a pending prefix key is forgotten by design). junk-highlight: bracket-heavy lines under the stateful bracket "
                 "highlighter with searches, recalls, completions and undo replacing the line. typeahead: text written in few large writes then Enter "
-                "must come back complete, with and without a printer.")
+                "must come back complete, with and without a printer. long: lines of 65534..131077 bytes (ASCII and multi-byte, with "
+                "and without line breaks) arriving as one bracketed paste, then short vi / emacs scripts that repeat (.), measure "
+                "(Up / Down), re-insert (yank, put) or undo them -- implementation only (no model comparison), same crash / stall oracle; "
+                "the witnesses of F19 and F20 run first.")
     for c, impl, model, raw in out[:3]:
         res.samples.append({"keys": c.keys, "impl": " ## ".join(impl)[:300]})
 
